@@ -177,6 +177,10 @@ class Expect:
         self.link_fail = (verdict, reason)
         if any(not self.m.is_w(n) for sub, pub in links for n in (sub[0], pub[0])):
             self.tags.add('via-future')
+        if verdict == 'illegal' and reason == 'self-feed':
+            # a placeholder subscribed to itself is a different shape than a worker reaching itself (through placeholders)
+            direct = any(sub[0] == pub[0] and not self.m.is_w(sub[0]) for sub, pub in links)
+            self.tags.add('placeholder-self' if direct else 'worker-self')
         if verdict == 'illegal' and self.nlinks:
             self.tags.add('partial')
         return False
